@@ -42,7 +42,7 @@ Definition js_callee_ok (ij : option value) (callee : bstr -> (bstr -> option va
   forall name cenv text jd ijv, callee name cenv = Some text -> datarel cenv jd ->
     (forall v, ij = Some v -> ijv = to_js v) -> jfn name jd ijv = Ok text.
 Definition callctx_ok (cf : cfg) (o : jopts) (cc : callctx) : Prop :=
-  cn_ok o /\ envok (cc_denv cc) /\ go_callee_ok cf (cc_callee cc) (cc_fuel cc) /\ js_callee_ok (c_ij cf) (cc_callee cc) (cc_jfn cc).
+  cn_ok o /\ o_msgs o = None /\ envok (cc_denv cc) /\ go_callee_ok cf (cc_callee cc) (cc_fuel cc) /\ js_callee_ok (c_ij cf) (cc_callee cc) (cc_jfn cc).
 
 Definition sim (cf : cfg) (cc : callctx) (st : mstate) (je : jenv) (jst : jstate) (old : bstr) : Prop :=
   wok st /\ dinv (cc_denv cc) (ctx st)
@@ -77,7 +77,7 @@ Theorem gen_correct_partial_stmt cf o cc lv st je jst s fuel text env' old :
   sout (c_ij cf) (mode st) go_print_text (cc_denv cc) (cc_callee cc) (sc_lookup (ctx st)) s = Some (text, env') ->
   sim_step cf o cc lv st je jst s fuel text env' old.
 Proof.
-  intros Hob (Hcn & Hdenv & HGo & HJs) Hf (Hg & Hd & ER & DR & G & Hbuf & Hmode) Hwf Hlv E. unfold sim_step.
+  intros Hob (Hcn & Hnb & Hdenv & HGo & HJs) Hf (Hg & Hd & ER & DR & G & Hbuf & Hmode) Hwf Hlv E. unfold sim_step.
   destruct (sgen (mode st) (j_buf jst) (j_scope jst) (j_n jst) s) as [j [sc' n']] eqn:Eg. cbn [fst].
   assert (Hc : envok (sc_lookup (ctx st))).
   { intros k x Hk. pose proof (er_core _ _ _ _ ER k) as H. unfold env_val in H. rewrite Hk in H. exact H. }
@@ -91,7 +91,7 @@ Proof.
   destruct (proj1 (js_exec_all (c_ij cf) (mode st) (cc_denv cc) (cc_callee cc) (cc_jfn cc) HJs) s (j_buf jst) (j_scope jst) (j_n jst) (sc_lookup (ctx st)) je old text env' j sc' n' G E (conj ER Hbuf) DR Eg)
     as (je' & E2 & (ER' & Hbuf') & (D2 & F2)).
   (* Gen *)
-  destruct (proj1 (sgen_print_all o Hcn) s lv fuel jst j sc' n' (j_indent jst) (j_buf jst) (j_auto jst) (j_scope jst) (j_n jst) ltac:(lia) (gi_nonempty _ _ _ G)
+  destruct (proj1 (sgen_print_all o Hcn Hnb) s lv fuel jst j sc' n' (j_indent jst) (j_buf jst) (j_auto jst) (j_scope jst) (j_n jst) ltac:(lia) (gi_nonempty _ _ _ G)
               Hlv Hwf (shape_refl jst)) as (jst' & E3 & O3 & I3 & B3 & A3 & S3 & N3). { rewrite Hmode. exact Eg. }
   destruct (sgen_scope _ _ _ _ _ _ _ _ Eg (gi_nonempty _ _ _ G)) as [Htl _].
   assert (ER2 : env_rel (j_scope jst') (c_ij cf) (sc_lookup (ctx st')) je').
@@ -213,12 +213,21 @@ Theorem gen_correct_partial_call cf o cc lv st je jst name d ps fuel text env' o
   sim_step cf o cc lv st je jst (SCall name d ps) fuel text env' old.
 Proof. apply gen_correct_partial_stmt. Qed.
 
+(* a message without plural, rendered without a bundle: {msg desc=".."}text{$x}{call ..}..{/msg} -- raw text and placeholders
+   (print, call) walked in the scope of the message on both sides; the generator without a bundle (o_msgs o = None) *)
+Theorem gen_correct_partial_msg cf o cc lv st je jst body fuel text env' old :
+  c_oblig cf = [] -> callctx_ok cf o cc -> (cc_fuel cc + sdepth (SMsg body) < fuel)%nat -> sim cf cc st je jst old ->
+  swf lv (SMsg body) = true -> lvok lv (j_scope jst) ->
+  sout (c_ij cf) (mode st) go_print_text (cc_denv cc) (cc_callee cc) (sc_lookup (ctx st)) (SMsg body) = Some (text, env') ->
+  sim_step cf o cc lv st je jst (SMsg body) fuel text env' old.
+Proof. apply gen_correct_partial_stmt. Qed.
+
 (* a context for statements without calls: no callee writes anything (sout is None on every call) *)
 Definition cc_nocalls (denv : bstr -> option value) : callctx :=
   {| cc_denv := denv; cc_callee := fun _ _ => None; cc_jfn := fun _ _ _ => OutOfModel; cc_fuel := 0 |}.
-Lemma cc_nocalls_ok cf o denv : cn_ok o -> envok denv -> callctx_ok cf o (cc_nocalls denv).
+Lemma cc_nocalls_ok cf o denv : cn_ok o -> o_msgs o = None -> envok denv -> callctx_ok cf o (cc_nocalls denv).
 Proof.
-  intros Hcn Hd. split; [exact Hcn|]. split; [exact Hd|]. split.
+  intros Hcn Hnb Hd. split; [exact Hcn|]. split; [exact Hnb|]. split; [exact Hd|]. split.
   - intros name cenv text H. discriminate.
   - intros name cenv text jd ijv H. discriminate.
 Qed.
